@@ -120,11 +120,13 @@ def w_c12(idx):
     return n, out
 
 
-def replay_ops_only(key):
+def replay_ops_only(key, via_json=False):
     """Replay the access path without requiring that the real state follows the model: C18 asks what is_equal
-    answers after these edits, whatever they did."""
+    answers after these edits, whatever they did.  via_json: the 'copy' step is a JSON save + load instead, which gives
+    a distinct tree whose nodes carry the SAME ids as the original."""
     ik, path = G["access"][key]
     w = build_with_atoms(G["states"][ik])
+    w.copy_via_json = via_json
     ops = []
     for (op, tk) in path:
         ok, ret, exc = w.apply(op["name"], op["args"])
@@ -136,17 +138,20 @@ def replay_ops_only(key):
 
 def w_c18(idx):
     out, n, npairs = [], 0, 0
-    for i in idx:
-        e = G["E"][i]
+
+    def compare(e, via_json):
+        nonlocal n, npairs
         key = canon(e["st"])
-        if key not in G["access"]:
-            continue
-        w, ops, ik = replay_ops_only(key)
+        w, ops, ik = replay_ops_only(key, via_json)
         if w is None or len(w.nodes) != len(e["st"]["kids"]):
-            continue
+            return
+        if via_json and canon(w.pi(ALLF), ("name", "kids", "ns", "content", "tail", "prefix", "attrs", "extras")) != \
+                canon(e["st"], ("name", "kids", "ns", "content", "tail", "prefix", "attrs", "extras")):
+            return       # the JSON twin is only used where it reproduces the model state (apart from the registry)
         before = w.pi(ALLF)
         eq = {tuple(p) for p in e["eq"]}
         N = len(w.nodes)
+        tag = ":json-twin" if via_json else ""
         for a in range(1, N + 1):
             for b in range(1, N + 1):
                 if a == b:
@@ -155,18 +160,25 @@ def w_c18(idx):
                 try:
                     got = Node.is_equal(w.n(a), w.n(b))
                 except Exception as exc:  # noqa: BLE001
-                    out.append((f"is_equal:raised:{type(exc).__name__}", repr(exc), {"kind": "pair", "template": G["states"][ik], "ops": ops, "a": a, "b": b}))
+                    out.append((f"is_equal:raised:{type(exc).__name__}{tag}", repr(exc), {"kind": "pair", "template": G["states"][ik], "ops": ops, "a": a, "b": b, "via_json": via_json}))
                     continue
                 want = (a, b) in eq
                 if bool(got) != want:
-                    # where do the two subtrees differ first? (for a stable key)
-                    where = first_difference(e["st"], a, b) if not want else "equal"
-                    out.append((f"is_equal:{'false-positive' if got else 'false-negative'}:{where}",
-                                f"is_equal({a},{b}) = {got}, TreeEq = {want}; state {jdump(e['st'])}",
-                                {"kind": "pair", "template": G["states"][ik], "ops": ops, "a": a, "b": b, "expected": want}))
+                    where = first_difference(e["st"], a, b) if not want else "equal"       # for a stable key
+                    out.append((f"is_equal:{'false-positive' if got else 'false-negative'}:{where}{tag}",
+                                f"is_equal({a},{b}) = {got}, TreeEq = {want}; state {jdump(e['st'])}" + (" (second tree made by JSON save+load: same ids)" if via_json else ""),
+                                {"kind": "pair", "template": G["states"][ik], "ops": ops, "a": a, "b": b, "expected": want, "via_json": via_json}))
         if canon(w.pi(ALLF)) != canon(before):
             out.append(("is_equal:mutates", "", {"kind": "pair", "template": G["states"][ik], "ops": ops}))
         n += 1
+
+    for i in idx:
+        e = G["E"][i]
+        if canon(e["st"]) not in G["access"]:
+            continue
+        compare(e, False)
+        if e["lvl"] > 1:
+            compare(e, True)
     return n, out, npairs
 
 
